@@ -110,13 +110,27 @@ class Interp:
         if name == "implies":
             a, b = ops.truth(self, args[0]), ops.truth(self, args[1])
             return VBool(t=z3.Implies(a.term(), b.term()))
+        if name == "byte_at":
+            vb, j = self.resolve(args[0]), self.resolve(args[1])
+            return byte_val(vb.at(j.c if j.c is not None else j.as_int()))
+        if name == "forall":
+            lo, hi, fn = self.resolve(args[0]), self.resolve(args[1]), args[2]
+            j = z3.Int(fresh("q"))
+            P = self.path
+            n0 = len(P.pc)
+            body = ops.truth(self, self.call(fn, [VInt(i=j, lo=None, hi=None)], {}))
+            if len(P.pc) != n0:
+                raise Unsupported(f"forall body must not branch: {P.pc[n0:]}")
+            return VBool(t=z3.ForAll([j], z3.Implies(z3.And(j >= lo.as_int(), j < hi.as_int()), body.term())))
         if name == "same_object":
             a, b = self.resolve(args[0]), self.resolve(args[1])
             if isinstance(a, VRef) and isinstance(b, VRef):
                 ra = self.hobj(a).meta.get("snapshot_of", a.ref)
                 rb = self.hobj(b).meta.get("snapshot_of", b.ref)
                 return mkbool(ra == rb)
-            return FALSE
+            if isinstance(a, VRef) or isinstance(b, VRef):
+                return FALSE
+            return ops.eq_values(self, a, b)
         from . import libmodels
         if name in libmodels.SPEC_LIB:
             return libmodels.SPEC_LIB[name](self, args, kwargs)
@@ -442,9 +456,13 @@ class Interp:
                 return v
         return v
 
+    @staticmethod
+    def is_spec(fr):
+        return fr.func == "<spec>" or (fr.module is not None and fr.module.name.startswith("contracts."))
+
     def pure_expr(self, node, fr=None):
         """syntactically free of side effects (calls limited to pure builtins / methods on values)"""
-        spec = fr is not None and fr.func == "<spec>"
+        spec = fr is not None and self.is_spec(fr)
         for n in ast.walk(node):
             if spec:
                 if isinstance(n, (ast.NamedExpr, ast.Await, ast.Yield, ast.YieldFrom)):
@@ -769,10 +787,15 @@ class Interp:
             self.note_log_args(node, fr)
             return NONE
         if isinstance(f, ast.Name) and f.id == "super" and not node.args:
-            return VSuper(fr.cls, fr.locals.get("self", fr.locals.get("cls")))
+            sv = fr.locals.get("self", fr.locals.get("cls"))
+            if isinstance(sv, VUnion):
+                sv = self.resolve(sv)
+                if "self" in fr.locals:
+                    fr.locals["self"] = sv
+            return VSuper(fr.cls, sv)
         if isinstance(f, ast.Name) and f.id == "cast" and len(node.args) == 2:
             return self.ev(node.args[1], fr)
-        if isinstance(f, ast.Name) and f.id == "implies" and len(node.args) == 2 and fr.func == "<spec>":
+        if isinstance(f, ast.Name) and f.id == "implies" and len(node.args) == 2 and self.is_spec(fr):
             a = ops.truth(self, self.ev(node.args[0], fr))
             if a.c is False:
                 return TRUE
@@ -785,7 +808,7 @@ class Interp:
             return VBool(t=z3.Implies(a.t, b.term()))
         if isinstance(f, ast.Name) and f.id == "old" and self.contracts is not None:
             return self.contracts.eval_old(self, node, fr)
-        if isinstance(f, ast.Name) and f.id == "pre" and self.contracts is not None and fr.func == "<spec>":
+        if isinstance(f, ast.Name) and f.id == "pre" and self.contracts is not None and self.is_spec(fr):
             return self.contracts.eval_pre(self, node, fr)
         if isinstance(f, ast.Attribute) and f.attr in ("append", "extend") and isinstance(f.value, (ast.Name, ast.Attribute)):
             base = self.ev(f.value, fr)
